@@ -54,3 +54,33 @@ pub proof fn axiom_utf16_ascii(s: Seq<char>)
     requires forall|i: int| 0 <= i < s.len() ==> (#[trigger] s[i] as u32) < 0x80
     ensures utf16_units(s).len() == s.len(), forall|i: int| 0 <= i < s.len() ==> #[trigger] utf16_units(s)[i] == s[i] as u16
 {}
+
+// ---- lossy UTF-8 decoding / decimal parsing (metadata accessors)
+pub uninterp spec fn is_utf8(b: Seq<u8>) -> bool;
+pub uninterp spec fn cow_str_view(c: std::borrow::Cow<'_, str>) -> Seq<char>;
+
+/// String::from_utf8_lossy: valid UTF-8 decodes to the string whose UTF-8 form is the input (invalid input: unspecified)
+pub assume_specification<'a>[ String::from_utf8_lossy ](v: &'a [u8]) -> (r: std::borrow::Cow<'a, str>)
+    ensures is_utf8(v@) ==> utf8(cow_str_view(r)) == v@;
+
+/// byteorder `BigEndian::read_u32(buf)` on a slice: panics unless 4 bytes are present
+impl BigEndian {
+    #[verifier::external_body]
+    pub fn read_u32(buf: &[u8]) -> (r: u32)
+        requires buf@.len() >= 4
+        ensures r == be32(buf@, 0)
+    { unimplemented!() }
+}
+
+/// value of an unsigned decimal literal as Rust's `u32::from_str` accepts it: optional '+', at least one ASCII digit, no overflow
+pub open spec fn dec_value(b: Seq<u8>, n: int) -> int
+    decreases n
+{
+    if n <= 0 { 0 } else { dec_value(b, n - 1) * 10 + (b[n - 1] - 0x30) }
+}
+pub open spec fn all_digits(b: Seq<u8>) -> bool { forall|i: int| 0 <= i < b.len() ==> 0x30 <= #[trigger] b[i] <= 0x39 }
+pub open spec fn decimal_u32(b: Seq<u8>) -> Option<u32> {
+    let digits = if b.len() > 0 && b[0] == 0x2b { b.skip(1) } else { b };
+    if digits.len() == 0 || !all_digits(digits) || dec_value(digits, digits.len() as int) > 0xffff_ffff { None }
+    else { Some(dec_value(digits, digits.len() as int) as u32) }
+}
